@@ -17,6 +17,9 @@ def run(ctx, idx):
     ctx.rule("C03.d", "insure_fuzzy keeps the mask: on a symbolic masked argument it returns the same object, still masked, with coverage and payload unchanged (summary computed from its body).")
     ctx.rule("C03.e", "Readers: the mask stored on the returned array derives from a comparison of the data with the cleaned missing-value parameter (plus the file's own mask for NetCDF) and is stored on the returned local.")
     coverage(ctx, idx, "C03.a", "C03.b", "C03.c")
+    ctx.rule("C03.f", "A result's missing cells are its own: no command writes in place through one of its inputs (into its data or its mask buffer), or cells become missing - or stop being missing - in a result that was never computed from the cells concerned.")
+    for d_, r_ in R.data_commands(idx):
+        R.leaves_inputs_alone(ctx, "C03.f", d_, r_, "the producer's result gains (or loses) missing cells that do not come from its own inputs, and so does everything that shares its mask buffer or reads it afterwards")
     insure_fuzzy_keeps_mask(ctx, idx)
     readers(ctx, idx, "C03.e")
     ctx.count("execute_bodies", len(R.results(idx)))
